@@ -128,6 +128,10 @@ pub mod ax {
 //# section: ax-slice-iter
     pub broadcast axiom fn iter_seq_is_remaining<'a, T>(it: core::slice::Iter<'a, T>)
         ensures #[trigger] super::stdspec::iter_seq(it) == vstd::std_specs::iter::IteratorSpec::remaining(&it);
+//# section: ax-bytelen
+    // TRUSTED: every char takes at least one byte in UTF-8.
+    pub broadcast axiom fn byte_len_at_least_chars(v: Seq<char>)
+        ensures v.len() <= #[trigger] super::stdspec::byte_len(v);
 //# section: ax-end
 }
 //# section: stdspec-begin
@@ -160,6 +164,12 @@ pub mod stdspec {
     // `remaining() == s@`).
     pub assume_specification<'a> [<core::str::Chars<'a> as Iterator>::count] (it: core::str::Chars<'a>) -> (n: usize)
         ensures n as int == it.remaining().len();
+//# section: stdspec-bytelen
+    // `byte_len(v)`: number of UTF-8 bytes of the text v (at least its number of chars).
+    pub uninterp spec fn byte_len(v: Seq<char>) -> nat;
+    // TRUSTED: String::len is the UTF-8 byte length (std docs).
+    pub assume_specification [String::len] (s: &String) -> (n: usize)
+        ensures n as nat == byte_len(s@);
 //# section: stdspec-contains
     // `peq(a, b)`: the result of `a == b` through the type's PartialEq impl.
     pub uninterp spec fn peq<T>(a: T, b: T) -> bool;
